@@ -204,7 +204,8 @@ def spawn (s : St) (frames : List Frame) (name : TaskName) : St × Nat :=
 
 def filteredView (P : Program) (s : St) : Graph.View :=
   { okNode := fun u => !(P.g.attr u).isOneofChild || s.opened u,
-    okEdge := fun e => e.case.isNone }
+    -- case edges, and the edges from the candidates of a one-of to its synthetic head, are not part of any reduced DAG
+    okEdge := fun e => e.case.isNone && !((P.g.attr e.v).oneofNodes.contains e.u) }
 
 /-- `_opened_oneof_children.add(dest)` when a one-of candidate is started -/
 def openCand (s : St) (isOneof : Bool) (dst : Node) : St :=
@@ -260,7 +261,8 @@ def validOrder (P : Program) (s : St) (d : DagRef) (ord : List Node) : Bool :=
   let ex := expectedOrder P s d
   ord.length == ex.length && ord.all ex.contains && ex.all ord.contains && ord.Nodup &&
   P.g.edges.all fun e =>
-    if ord.contains e.u && ord.contains e.v && (d.isRec || e.case.isNone) then posOf ord e.u < posOf ord e.v
+    if ord.contains e.u && ord.contains e.v &&
+        (d.isRec || (e.case.isNone && !((P.g.attr e.v).oneofNodes.contains e.u))) then posOf ord e.u < posOf ord e.v
     else true
 
 /-! ### `_get_node_kwargs` -/
